@@ -41,7 +41,7 @@ inline void offsetBounds(const State &S, Val p, i128 &lo, i128 &hi) {
 
 // bounds/ownership obligation. nlo..nhi = number of bytes accessed (interval). returns false if alarmed.
 inline bool checkAccess(State &S, const Val &p, i128 nlo, i128 nhi, bool write, const Instruction *I, const char *what,
-                        int lenRoot = -1, i128 lenK = 0) {
+                        int lenRoot = -1, i128 lenK = 0, int lenCroot = -1, i128 lenCk = 0) {
   if (nhi <= 0) return true;
   if (p.k != Val::PTR) { alarm(S, write ? "W" : "R", I, std::string(what) + ": access through a value that is not a tracked pointer"); return false; }
   if (p.reg < 0) { alarm(S, "NULL", I, std::string(what) + ": null pointer dereference"); return false; }
@@ -59,6 +59,8 @@ inline bool checkAccess(State &S, const Val &p, i128 nlo, i128 nhi, bool write, 
     if (p.root == R.sizeRoot && nlo == nhi && p.rk + nhi <= R.sizeK) symok = true;
     if (lenRoot == R.sizeRoot && olo == ohi && olo + lenK <= R.sizeK && olo >= 0) symok = true;
   }
+  // offset = root + k1 and length = k2 - root: the end of the access is the constant k1 + k2
+  if (!symok && lenCroot >= 0 && p.root == lenCroot && olo >= 0 && p.rk + lenCk <= slo) symok = true;
   if (!symok && ohi + nhi > slo) ok = false;
   if (!ok) {
     alarm(S, write ? "W" : "R", I, std::string(what) + ": " + (write ? "write" : "read") + " of " + i128s(nlo) + ".." + i128s(nhi) + " bytes at " + R.name + "[" + i128s(olo) + ".." + i128s(ohi) + "] may leave the region (size >= " + i128s(slo) + ")");
@@ -67,6 +69,7 @@ inline bool checkAccess(State &S, const Val &p, i128 nlo, i128 nhi, bool write, 
   if (write && R.fieldmap >= 0) {
     // the write must stay inside writable fields
     i128 a = olo, b = ohi + nhi;   // [a,b)
+    if (lenCroot >= 0 && p.root == lenCroot) b = std::min(b, p.rk + lenCk);
     for (auto &f : CFG.fields) if (!f.writable && a < f.hi && b > f.lo) {
       alarm(S, "FIELD", I, std::string(what) + ": write touches application-owned field `" + f.name + "` of the data object ([" + i128s(a) + "," + i128s(b) + "))");
       return false;
@@ -110,6 +113,8 @@ inline void doStore(State &S, const Val &p, const Val &v, unsigned n, const Inst
   ensureTracked(S, R);
   RegionData &D = R.w();
   i128 olo, ohi; offsetBounds(S, p, olo, ohi);
+  { bool isNul = n == 1 && v.k == Val::INT && v.isConst() && v.constVal().isZero();
+    if (isNul) D.noteWrite(olo, ohi + 1, true); else D.noteWrite(olo, ohi + n, false); }
   if (olo == ohi) {
     eraseScalars(D, olo, olo + n);
     if (!(v.k == Val::INT && n == 1)) D.scalars[(int64_t)olo] = {n, v};
@@ -230,13 +235,14 @@ inline void doCopy(State &S, const Val &dst, const Val &src, Val n, const Instru
   i128 nlo = n.r.isFullSet() ? 0 : (i128)n.r.getUnsignedMin().getZExtValue();
   i128 nhi = n.r.isFullSet() ? ((i128)1 << 62) : (i128)n.r.getUnsignedMax().getZExtValue();
   if (nhi == 0) return;
-  bool ok1 = checkAccess(S, dst, nlo, nhi, true, I, what, n.root, n.rk);
-  bool ok2 = checkAccess(S, src, nlo, nhi, false, I, what, n.root, n.rk);
+  bool ok1 = checkAccess(S, dst, nlo, nhi, true, I, what, n.root, n.rk, n.croot, n.ck);
+  bool ok2 = checkAccess(S, src, nlo, nhi, false, I, what, n.root, n.rk, n.croot, n.ck);
   if (!ok1 || dst.k != Val::PTR || dst.reg < 0) return;
   Region &RD = S.regions[dst.reg];
   ensureTracked(S, RD);
   i128 dlo, dhi; offsetBounds(S, dst, dlo, dhi);
   RegionData &D = RD.w();
+  D.noteWrite(dlo, dhi + std::min(nhi, (i128)1 << 40), false);
   if (!ok2 || src.k != Val::PTR || src.reg < 0) {
     ByteCell any; any.cs.set(); any.prov = P_OTHER;
     eraseScalars(D, dlo, dhi + nhi);
@@ -267,13 +273,16 @@ inline void doSet(State &S, const Val &dst, const Val &c, Val n, const Instructi
   i128 nlo = n.r.isFullSet() ? 0 : (i128)n.r.getUnsignedMin().getZExtValue();
   i128 nhi = n.r.isFullSet() ? ((i128)1 << 62) : (i128)n.r.getUnsignedMax().getZExtValue();
   if (nhi == 0) return;
-  if (!checkAccess(S, dst, nlo, nhi, true, I, what, n.root, n.rk)) return;
+  if (!checkAccess(S, dst, nlo, nhi, true, I, what, n.root, n.rk, n.croot, n.ck)) return;
   Region &RD = S.regions[dst.reg];
   ensureTracked(S, RD);
   RegionData &D = RD.w();
   i128 dlo, dhi; offsetBounds(S, dst, dlo, dhi);
+  if (n.croot >= 0 && dst.root == n.croot) { i128 end = dst.rk + n.ck; if (dhi + nhi > end) nhi = std::max((i128)0, end - dlo); if (nlo > nhi) nlo = nhi; }
   Val c8 = c; if (c8.k == Val::INT && c8.w > 8) { int nc; c8 = castop(S, Instruction::Trunc, c8, 8, Type::getInt8Ty(M->getContext())); (void)nc; }
   ByteCell cell = cellOfVal(c8, 0);
+  { bool isNul = cell.cs.count() == 1 && cell.cs[0] && nlo >= 1;
+    if (isNul) D.noteWrite(dlo, dhi + 1, true); else D.noteWrite(dlo, dhi + std::min(nhi, (i128)1 << 40), false); }
   eraseScalars(D, dlo, dhi + nhi);
   i128 cap = (i128)1 << 40;
   if (dlo == dhi) { D.fillRange(dlo, dlo + std::min(nlo, cap), cell); if (nhi > nlo) D.joinRange(dlo + nlo, dlo + std::min(nhi, cap), cell); }
@@ -300,4 +309,5 @@ inline void absStrlen(State &S, const Val &p, i128 &lo, i128 &hi) {
     }
   }
   if (first) lo = lim - olo;
+  if (!R.gv && R.rd().nulLo >= 0 && R.rd().nulHi >= olo) { hi = R.rd().nulHi - olo; if (lo > hi) lo = hi; if (first && R.rd().nulLo - olo < lo) lo = std::max((i128)0, (i128)R.rd().nulLo - olo); }
 }
